@@ -334,7 +334,8 @@ func (l *WAL) replayPhysicRecord(fr *bufio.Reader, walFileName string, recordCom
 		writeWalType: writeWalType,
 	}
 	n, err = io.ReadFull(fr, recordCompBuff)
-	if err == nil || err == io.EOF {
+	// io.EOF here means that not a single payload byte follows the header: the record was cut short
+	if err == nil {
 		var innerErr error
 		binaryBuff, innerErr = snappy.Decode(binaryBuff, recordCompBuff)
 		if innerErr != nil {
